@@ -352,7 +352,12 @@ pub fn on_messages_handed(m: &mut Monitors, nodes: &[Node], v: usize, msgs: &[&M
                     .u(x.entries.len().min(5) as u64)
                     .u((x.commit == committed) as u64)
                     .u((x.index + x.entries.len() as u64 == raw.raft.raft_log.last_index()) as u64)
-                    .u(batch_skip as u64);
+                    .u(batch_skip as u64)
+                    .u(raw.raft.prs().get(x.to).map(|p| p.state as u64 + 1).unwrap_or(0))
+                    .u(raw.raft.prs().get(x.to).map(|p| p.ins.full() as u64).unwrap_or(2))
+                    .u((m.max_size_per_msg == u64::MAX) as u64)
+                    .u((x.index < raw.raft.raft_log.unstable.offset) as u64);
+                super::cluster_fp(nodes, &mut f);
                 m.stats.hit("C13", f.get());
                 // contiguous from index+1
                 let mut prev = x.index;
